@@ -83,10 +83,17 @@ pub fn generate(
                     }
                     CustomType::Yes(_) => {
                         // Once signed bitenum or bitfield-base-data-types are a thing, we'll need to pay special attention to sign extension here
+                        // The raw value is bound to the integer type of the field's width first: a custom type of any other
+                        // width is a type error here, just as it is in the getter (write-only fields have no getter).
                         if field_definition.use_regular_int {
-                            quote! { field_value.raw_value() }
+                            let raw_type = &field_definition.primitive_type;
+                            quote! { { let raw_value: #raw_type = field_value.raw_value(); raw_value } }
                         } else {
-                            quote! { field_value.raw_value().value() }
+                            let raw_type = TokenStream2::from_str(
+                                format!("arbitrary_int::u{}", total_number_bits).as_str(),
+                            )
+                            .unwrap();
+                            quote! { { let raw_value: #raw_type = field_value.raw_value(); raw_value.value() } }
                         }
                     }
                 };
